@@ -14,6 +14,13 @@
 (*   "unguarded"  Store always caches what was read                        *)
 (*   "epoch"      Store caches only if nothing was invalidated since the   *)
 (*                load looked the file up (what 7f03230 does)              *)
+(*   "atomic"     Read and Store are one step (one write-lock section):    *)
+(*                how the workspace fills its memoised declared-account /  *)
+(*                declared-commodity / format sets; splitting that section *)
+(*                into "scan under the read lock, publish under the write  *)
+(*                lock" is the mechanism "unguarded" again.  No yield      *)
+(*                point marks that window: C14 samples it with streams on  *)
+(*                a workspace whose scan is long (60 000 directives).      *)
 (* CacheNeverStale: a cached parse is the parse of the file as it is.      *)
 (* TLC: "unguarded" violates it with Read(v1) Edit Store; "epoch" keeps it.*)
 (* Every behaviour is printed; Read ... Store of one load is replayed by   *)
@@ -53,7 +60,14 @@ Edit == /\ ver <= MaxEdits
         /\ h' = Append(h, [e |-> "edit", ver |-> ver + 1])
         /\ UNCHANGED <<loads, nloads>>
 
-Next == Begin \/ Edit \/ \E l \in loads : Read(l) \/ Store(l)
+Fill(l) == /\ l \in loads /\ l.pc = "lookedup"
+           /\ loads' = loads \ {l} /\ cache' = ver
+           /\ h' = Append(h, [e |-> "fill", id |-> l.id, ver |-> ver])
+           /\ UNCHANGED <<ver, epoch, nloads>>
+
+Next == \/ Begin \/ Edit
+        \/ Mech # "atomic" /\ \E l \in loads : Read(l) \/ Store(l)
+        \/ Mech = "atomic" /\ \E l \in loads : Fill(l)
 Spec == Init /\ [][Next]_vars
 
 CacheNeverStale == cache = 0 \/ cache = ver
